@@ -161,6 +161,10 @@ def animBody (n : Nat) : Prog :=
       isKbd skip)
     (act plain iterClose ;; ifFlag (act plain (owrite .other) ;; act plain oflush) skip))
 
+/-- `get_cell_size` l.~433-440: `try: fcntl.ioctl(…) except OSError: pass` before the XTWINOPS query -/
+def cellSizeIoctl : Prog :=
+  tryExcept (act plain ioctl) (fun e => e == .osError) skip
+
 /-! ### the operations of the property -/
 
 inductive Op
